@@ -289,7 +289,7 @@ Step ==
                 v1 == r0.v \cup SyncViol(r0.m, l)
                       \cup (IF r0.m.unfl # 0 /\ ~r0.m.lost THEN {V("C12", l, "server waits for input with unflushed output")} ELSE {})
                       \cup (IF r0.m.dead # "" /\ ~r0.m.fault /\ Len(e.got) > 0 /\ FALSE THEN {} ELSE {})
-                m1 == IF Len(e.got) = 0 THEN [r0.m EXCEPT !.eof = TRUE]
+                m1 == IF Len(e.got) = 0 THEN [r0.m EXCEPT !.eof = (e.want > 0)]   \* (a read into an empty buffer is not an end of stream)
                       ELSE IF r0.m.enc /\ r0.m.ctls THEN r0.m
                       ELSE Advance(Inbound(r0.m, e.got))
             IN /\ m' = [m1 EXCEPT !.n.rds = @ + 1, !.lost = @ \/ (v1 # r0.v)]
@@ -315,6 +315,7 @@ Step ==
                ELSE IF i = 0 THEN
                  /\ m' = [mm EXCEPT !.lost = TRUE]
                  /\ viol' = r0.v \cup vdead \cup {V(IF e.name = "auth" THEN "C11" ELSE "C02", l, "callback " \o e.name \o " without a pending command")}
+                                  \cup (IF e.name # "auth" THEN {V("C01", l, "the shim was handed a command (" \o e.name \o ") that the client has not sent (completely)")} ELSE {})
                ELSE LET q == mm.q[i] c == q.cls
                         argv == IF e.name # c.cb THEN {V(IF "auth" \in {e.name, c.cb} THEN "C11" ELSE "C02", l, "callback " \o e.name \o " where " \o c.cb \o " was due (" \o c.kind \o ")")}
                                                      \cup (IF c.kind = "close" THEN {V("C10", l, "a COM_STMT_CLOSE did not reach on_close")} ELSE {})
@@ -485,9 +486,13 @@ Step ==
                            THEN {V("C02", l, "a command never reached its callback " \o mm.q[FirstNew(mm.q)].cls.cb)}
                                 \cup (IF mm.q[FirstNew(mm.q)].cls.kind = "close" THEN {V("C10", l, "a COM_STMT_CLOSE never reached on_close")} ELSE {})
                            ELSE {}
+                \* the connection ended with an error exactly where a live statement id was to be used (C10)
+                vrefused == IF res = "err" /\ mm.dead = "" /\ ~mm.fault /\ ~mm.lost /\ ~mm.free /\ FirstNew(mm.q) # 0
+                               /\ mm.q[FirstNew(mm.q)].cls.kind = "execute" /\ RegFind(mm.reg, mm.q[FirstNew(mm.q)].cls.arg) # 0
+                            THEN {V("C10", l, "an execution of a live statement id was refused (the id was prepared and never closed)")} ELSE {}
                 vblock == IF mm.blocked /\ ~mm.lost THEN {V("C12", l, "lock-step client blocked: the server waited for input while the client was waiting for a reply")} ELSE {}
             IN /\ m' = [mm EXCEPT !.done = TRUE]
-               /\ viol' = r0.v \cup vres \cup vsync \cup vblock \cup vpanic \cup vtls \cup vmissed
+               /\ viol' = r0.v \cup vres \cup vsync \cup vblock \cup vpanic \cup vtls \cup vmissed \cup vrefused
        [] OTHER -> UNCHANGED <<m, viol>>
 
 Spec == Init /\ [][Step]_vars
